@@ -69,6 +69,9 @@ ASSUMPTIONS = ["an operation id may be used again: after it ended it is a fresh 
                "the operation is judged",
                "an operation killed at a controller step before its work function is entered must not run it without its "
                "resources (work_holds_all is judged at entry in that case too; this was a defect of the original code, repaired)",
+               "request lists are also handed over as tuple / iterator / generator / map / reversed objects with the same entries: "
+               "beyond the annotated list[str], but 'all resource request lists' is about the entries, and the unchanged code "
+               "iterates the request exactly once",
                "an exception escaping execute_operation is not itself a violation (the statement speaks about the state when "
                "the call returns); the release clauses are judged all the same"]
 EXPECT_PROBES = ("exit_commit", "exit_blocked", "exit_unknown_resource", "exit_checkpoint_false", "exit_checkpoint_raise",
@@ -81,7 +84,8 @@ EXPECT_PROBES = ("exit_commit", "exit_blocked", "exit_unknown_resource", "exit_c
                  "context_abandoned", "id_reused_after_end", "blocked_on_orphan_hold", "requeued_same_id", "reregistered",
                  "reregistered_while_held", "validator_raised_empty_message", "blocked_exit_judged",
                  "bystander_lock_watched_after_block", "weak_bystander_lock_named_after_block", "partial_checkpoints",
-                 "no_g2_checkpoint", "priority_boosted_by_maintenance")
+                 "no_g2_checkpoint", "priority_boosted_by_maintenance", "preemption_judged",
+                 "blocked_by_partially_released_preemptable_hold", "one_shot_request_iterable")
 
 RES = ["r0", "r1", "r2"]
 PHASES = {"G0": Phase.G0, "G1": Phase.G1, "S": Phase.S, "G2": Phase.G2, "M": Phase.M}
@@ -94,7 +98,9 @@ FOREIGN = ["none", "block_first", "block_last", "preempt_first", "preempt_last",
            # (stepping API, still live), or a ResourceLock that was registered already owned
            "abandoned_first", "abandoned_last", "preowned_first", "preowned_other_id",
            # blocked on the first entry while every later entry is pre-emptable and held by a lower-priority bystander
-           "block_first_weak_later"]
+           "block_first_weak_later",
+           # the first entry is pre-emptable and held twice by a higher-or-equal priority holder that gave one hold back
+           "partial_release_first"]
 CP_FAULTS = [["G0", 1], ["G0", 2], ["G1", 1], ["S", 1], ["G2", 1]]
 
 
@@ -138,6 +144,9 @@ def _single_faults():
     for ph, n in (["G0", 2], ["G1", 1]):
         for kind in ("kill", "requeue", "rereg"):
             out.append({"cp": [[ph, n, kind]]})
+    # the request handed over as something other than a list (the library iterates it once)
+    for kind in REQ_KINDS[1:]:
+        out.append({"as": kind})
     # work results of every truthiness, alone and against a rejecting / accepting validator
     for r in RESULTS[1:]:
         out.append({"result": r})
@@ -148,6 +157,22 @@ def _single_faults():
 
 
 RESULTS = ["tok", None, 0, "", [], {}, False, 0.0]
+REQ_KINDS = ["list", "tuple", "iter", "gen", "map", "reversed"]
+
+
+def _as_request(kind, reslist):
+    if kind == "tuple":
+        return tuple(reslist)
+    if kind == "iter":
+        return iter(list(reslist))
+    if kind == "gen":
+        return (r for r in list(reslist))
+    if kind == "map":
+        return map(str, list(reslist))
+    if kind == "reversed":
+        return reversed(list(reversed(reslist)))
+    return list(reslist)
+
 EXC_KINDS = ["msg", "empty", "assert", "runtime_empty", "value_empty", "type", "key_empty", "attr"]
 
 
@@ -202,6 +227,12 @@ def _case(shape, foreign, faults, via_cell, prio=2, fprio=None, preempt=None, du
                 pre.append(["acq", "X", target])
             if foreign.endswith("last") and len(set(reslist)) < 3:
                 pre.append(["acq", "X", [r for r in RES if r not in reslist][0]])   # a hold the retry never asks for
+        elif target is not None and foreign == "partial_release_first":
+            flags[target] = True
+            fp = max(prio, 5 if fprio is None else fprio, 1)
+            pre = [["start", "F0", fp], ["acq", "F0", target], ["acq", "F0", target], ["rel", "F0", target]]
+            if dup_foreign:
+                pre[3:3] = [["acq", "F0", target]]
         elif target is not None and foreign == "block_first_weak_later":
             pre = [["start", "F0", 5 if fprio is None else max(fprio, prio)], ["acq", "F0", reslist[0]]]
             later = [r for r in dict.fromkeys(reslist[1:]) if r != reslist[0]]
@@ -318,6 +349,8 @@ def gen(rng, tier, i):
                                     rng.choice(["kill_self", "maint", "shutdown", "kill_requeue", "rereg"])]])
     if rng.random() < 0.3:
         faults.setdefault("result", rng.choice(RESULTS))
+    if rng.random() < 0.15:
+        faults.setdefault("as", rng.choice(REQ_KINDS[1:]))
     preempt = {r: rng.random() < 0.4 for r in RES}
     cfg, pre, ex = _case(sh, fo, faults, rng.random() < 0.3, prio=rng.choice([0, 1, 2, 5, 9]),
                          fprio=rng.choice([None, None, 0, 2, 5, 9]), preempt=preempt,
@@ -391,6 +424,8 @@ def simplify(plan):
             if len(f.get(lk, [])) > 1:
                 for q in range(len(f[lk])):
                     yield with_op(["exec", oid, rl, pr, {**f, lk: f[lk][:q] + f[lk][q + 1:]}])
+        if f.get("as") not in (None, "gen"):
+            yield with_op(["exec", oid, rl, pr, {**f, "as": "gen"}])
         if "result" in f and f["result"] is not None:
             yield with_op(["exec", oid, rl, pr, {**f, "result": None}])
         for q in range(len(rl)):
@@ -475,7 +510,7 @@ class World:
         def spy_acquire(ctx, resource_id):
             n = self._step(ctx.operation_id, "acq", None, "before")
             res = real_acq(ctx, resource_id)
-            self._on_acquire(ctx.operation_id, resource_id, res)
+            self._on_acquire(ctx.operation_id, resource_id, res, ctx.priority)
             self._step(ctx.operation_id, "acq", n, "after")
             return res
         self.ctrl.acquire_resource = spy_acquire
@@ -555,7 +590,7 @@ class World:
         self.live[opid] = rec
         return True
 
-    def _on_acquire(self, opid, r, res):
+    def _on_acquire(self, opid, r, res, prio=None):
         self.k.ev("acq", [opid, r, res.name])
         if res in (LockResult.ACQUIRED, LockResult.PREEMPTED):
             for key in [x for x in self.orphans if x[1] == r]:
@@ -579,12 +614,26 @@ class World:
             self.k.probe("acquired_after_being_killed")
         holds = rec["holds"]
         if res == LockResult.ACQUIRED:
-            holds[r] = {"n": 1, "shape": "plain_hold"}
+            holds[r] = {"n": 1, "shape": "plain_hold", "prio": prio}
         elif res == LockResult.PREEMPTED:
             for other, orec in list(self.live.items()) + list(self.zombie.items()):
-                if other != opid:
+                if other != opid and r in orec["holds"]:
+                    # a live holder may lose a lock only to a strictly higher-priority requester on a pre-emptable
+                    # resource (its priority = the one it had when it obtained the lock; later inheritance boosts of the
+                    # holder are not demanded to protect it, and adopted / pre-owned holds carry no known priority)
+                    h_ = orec["holds"][r]
+                    hp = h_.get("prio")
+                    shape = "partially_released_hold" if h_.get("partial") else h_["shape"]
+                    self.k.probe("preemption_judged")
+                    if not self.ctrl.resources[r].allow_preemption:
+                        self.k.violation("untouched", "preempted_a_non_preemptable_resource", shape,
+                                         f"{opid} (priority {prio}) took {r} from {other}")
+                    elif hp is not None and prio is not None and prio <= hp:
+                        self.k.violation("untouched", "preempted_without_higher_priority", shape,
+                                         f"{opid} (priority {prio}) took {r} from live holder {other} (priority {hp}, "
+                                         f"holds left {h_['n']})")
                     orec["holds"].pop(r, None)
-            holds[r] = {"n": 1, "shape": "preempting_hold"}
+            holds[r] = {"n": 1, "shape": "preempting_hold", "prio": prio}
             self.k.probe("preempting_hold")
             self.k.probe("foreign_holder_met")
         elif res == LockResult.REENTRANT:
@@ -602,6 +651,11 @@ class World:
         elif res == LockResult.BLOCKED:
             self.k.probe("foreign_holder_met")
             rec["blocked"] = True
+            for other, orec in list(self.live.items()) + list(self.zombie.items()):
+                h_ = orec["holds"].get(r) if other != opid else None
+                if h_ and h_.get("partial") and self.ctrl.resources[r].allow_preemption and prio is not None \
+                        and h_.get("prio") is not None and 0 < prio <= h_["prio"]:
+                    self.k.probe("blocked_by_partially_released_preemptable_hold")
             holder_live = any(r in orec["holds"] for o, orec in list(self.live.items()) + list(self.zombie.items())
                               if o != opid)
             owner = self.ctrl.resources[r].owner
@@ -849,10 +903,13 @@ def run(plan, k):
         if "zz" in reslist:
             w.fault_fired = True
         vfn = validate if vf else None
+        req = _as_request(faults.get("as", "list"), reslist)
+        if faults.get("as") in ("iter", "gen", "map", "reversed") and reslist:
+            k.probe("one_shot_request_iterable")
         if w.cell is not None:
-            out = call(w.cell.execute, "agent", opid, work, list(reslist), vfn, prio, tracer=tr)
+            out = call(w.cell.execute, "agent", opid, work, req, vfn, prio, tracer=tr)
         else:
-            out = call(system.execute_operation, opid, "agent", work, list(reslist), vfn, prio, tracer=tr)
+            out = call(system.execute_operation, opid, "agent", work, req, vfn, prio, tracer=tr)
         k.ev("exec", [opid, reslist, prio, out.brief() if out.kind != "ok" else ["ok", bool(out.value.success)]])
         if out.kind not in ("ok", "raised"):
             k.violation("returns", out.kind, "execute_operation", str(out.exc)[:200])
@@ -997,6 +1054,7 @@ def run(plan, k):
                         w.touched.add(op[2])      # the releasing operation changed it on purpose
                     if out.kind == "ok" and out.value is True and op[2] in rec["holds"]:
                         h = rec["holds"][op[2]]
+                        h["partial"] = True
                         h["n"] -= 1
                         if h["n"] <= 0:
                             del rec["holds"][op[2]]
